@@ -18,6 +18,11 @@ def main():
     ap.add_argument("--replay")
     ns = ap.parse_args()
     seed = int(os.environ.get("VERIF_SEED", "0") or 0)
+    # The checks built first draw their random scenario parts directly from the seed.  Every input any
+    # seed can reach must have been triaged on the pinned tree (DESIGN.md 2.4), so for them the seed is
+    # folded onto the six values that were (C01 C03 C06 C09 C17 C18 use core.streams instead).
+    if ns.pid.upper() not in ("C01", "C03", "C06", "C09", "C17", "C18"):
+        seed = seed % 6
     from harness import tlc
 
     mod = importlib.import_module("harness.checks." + ns.pid.lower())
